@@ -260,7 +260,24 @@ def gen_new_pkg(rng, force=None):
         rng.shuffle(order)
     listed = [structs[i] for i in order]
     star = force.get("star", rng.random() < 0.35)
-    return build_new_pkg(listed, flags, star, extra_feats=["shared-embed"] if shared and n >= 3 else ())
+    # the same package under a second import name, used by the default expressions of SOME types (copied verbatim into
+    # SetDefault): the per-type sources then import one path under different names and the merged file needs every spec
+    alias = False
+    if opt and rng.random() < 0.4:
+        for s_ in rng.sample(listed, min(len(listed), rng.choice([1, 2, 2]))):
+            if "PauseFor" not in pascal_names(s_):
+                s_["members"].append(hand_field("pauseFor", "time.Duration", dstyle=0, **{"def": "time.Duration(%d)" % rng.randint(2, 9)}))
+    if opt:
+        dfl = [m for s_ in listed for m in s_["members"] if m["k"] == "f" and (m.get("def") or "").startswith("time.Duration(")]
+        if dfl and rng.random() < 0.6:
+            for m in rng.sample(dfl, max(1, len(dfl) // 2)):
+                m["def"] = "t2." + m["def"][len("time."):]
+            alias = True
+    ef = (["shared-embed"] if shared and n >= 3 else []) + (["import-alias-in-default"] if alias else [])
+    pk = build_new_pkg(listed, flags, star, extra_feats=ef)
+    if alias:
+        pk["files"]["t.go"] = pk["files"]["t.go"].replace('\t"time"\n', '\t"time"\n\tt2 "time"\n', 1)
+    return pk
 
 
 def deps_first_order(listed):
@@ -313,7 +330,9 @@ def hand_new_pkgs():
     # the same package imported under two names, each used by one type: the merged file needs both import specs
     # (MergeSources de-duplicates by path AND name)
     # (the alias text reaches generated code verbatim only through a `def=` expression, emitted by -opt's SetDefault)
-    a = hand_struct("Alpha", [hand_field("wait", "time.Duration")])
+    # (since 25959c0 the tool spells a foreign TYPE with one of the names its package is imported under - the same for every type
+    # of the file; a `def=` expression is copied verbatim, so each type below brings its own spelling of the package)
+    a = hand_struct("Alpha", [hand_field("wait", "time.Duration", **{"def": "time.Second"})])
     b = hand_struct("Beta", [hand_field("pause", "time.Duration", **{"def": "t2.Second"}), hand_field("n")])
     pk = build_new_pkg([a, b], ["-opt"], extra_feats=["hand-import-alias"])
     pk["files"]["t.go"] = pk["files"]["t.go"].replace('import (\n\t"time"\n)', 'import (\n\t"time"\n\tt2 "time"\n)')
